@@ -335,6 +335,93 @@ theorem restrict_sub (d : Disc β) (dIn dOut : List V) :
   unfold DJac.restrict
   split <;> rfl
 
+/-! ### Pruning in parallel and additive chains -/
+
+/-- What `MDOParallelChain._compute_jacobian(X, O)` asks its disciplines: the requested names that
+    belong to their grammars (`_set_disciplines_diff_inputs/outputs`), or any superset `sel`. -/
+def Disc.restrictTo (d : Disc β) (s : DiscIO V) : Disc β :=
+  { d with jac := d.jac.restrict s.1 s.2 }
+
+theorem row_restrict_get (d : Disc β) (s : DiscIO V) (o x : V)
+    (hk : ∀ w v, d.jac.present w v → w ∈ d.outs ∧ v ∈ d.ins)
+    (ho : o ∈ d.outs → o ∈ s.2) (hx : x ∈ d.ins → x ∈ s.1) :
+    ((d.restrictTo s).jac.row o).get x = (d.jac.row o).get x := by
+  have hp := DJac.present_restrict d.jac s.1 s.2 o x
+  have hval : (d.jac.restrict s.1 s.2).val = d.jac.val := by unfold DJac.restrict; split <;> rfl
+  unfold DJac.row Disc.restrictTo
+  simp only [hval]
+  unfold DJac.present at hp
+  by_cases h : o ∈ d.jac.rows ∧ x ∈ d.jac.cols o
+  · have hk' := hk o x h
+    have : o ∈ (d.jac.restrict s.1 s.2).rows ∧ x ∈ (d.jac.restrict s.1 s.2).cols o :=
+      hp.mpr ⟨h, ho hk'.1, hx hk'.2⟩
+    simp [h, this]
+  · have : ¬ (o ∈ (d.jac.restrict s.1 s.2).rows ∧ x ∈ (d.jac.restrict s.1 s.2).cols o) :=
+      fun hh => h (hp.mp hh).1
+    simp [h, this]
+
+/-- Two lists of disciplines with the same grammars and the same block for the pair `(o, x)`. -/
+def SamePair (o x : V) (d' d : Disc β) : Prop :=
+  d'.outs = d.outs ∧ ((d'.jac.row o).get x) = ((d.jac.row o).get x)
+
+theorem parJac_congr (fill : (o x : V) → β o x) (o x : V) (ds' ds : List (Disc β))
+    (h : List.Forall₂ (SamePair o x) ds' ds) : parJac fill ds' o x = parJac fill ds o x := by
+  unfold parJac parRow
+  have gen : ∀ (ds' ds : List (Disc β)), List.Forall₂ (SamePair o x) ds' ds →
+      ∀ (acc' acc : Option (Row β o)), finishRow fill acc' x = finishRow fill acc x →
+      finishRow fill (ds'.foldl (fun a d => if o ∈ d.outs then some (d.jac.row o) else a) acc') x
+        = finishRow fill (ds.foldl (fun a d => if o ∈ d.outs then some (d.jac.row o) else a) acc) x := by
+    intro ds' ds h
+    induction h with
+    | nil => intro acc' acc hacc; exact hacc
+    | cons hd _ ih =>
+      intro acc' acc hacc
+      simp only [List.foldl_cons]
+      apply ih
+      rw [hd.1]
+      split
+      · simp only [finishRow, hd.2]
+      · exact hacc
+  exact gen ds' ds h none none rfl
+
+theorem addBlock_congr (o x : V) (ds' ds : List (Disc β))
+    (h : List.Forall₂ (SamePair o x) ds' ds) : addBlock ds' o x = addBlock ds o x := by
+  unfold addBlock
+  have gen : ∀ (ds' ds : List (Disc β)), List.Forall₂ (SamePair o x) ds' ds →
+      ∀ acc : Option (β o x), ds'.foldl (addStep o x) acc = ds.foldl (addStep o x) acc := by
+    intro ds' ds h
+    induction h with
+    | nil => intro acc; rfl
+    | @cons a b _ _ hd _ ih =>
+      intro acc
+      simp only [List.foldl_cons]
+      have : addStep o x acc a = addStep o x acc b := by
+        unfold addStep; rw [hd.2]
+      rw [this]; exact ih _
+  exact gen ds' ds h none
+
+theorem samePair_restrict (o x : V) (ds : List (Disc β)) (sels : List (DiscIO V))
+    (hlen : sels.length = ds.length)
+    (hk : ∀ d ∈ ds, ∀ w v, d.jac.present w v → w ∈ d.outs ∧ v ∈ d.ins)
+    (hs : ∀ k (d : Disc β), ds[k]? = some d →
+      (o ∈ d.outs → o ∈ (sels.getD k ([], [])).2) ∧ (x ∈ d.ins → x ∈ (sels.getD k ([], [])).1)) :
+    List.Forall₂ (SamePair o x) (List.zipWith Disc.restrictTo ds sels) ds := by
+  induction ds generalizing sels with
+  | nil => simp
+  | cons d ds ih =>
+    cases sels with
+    | nil => simp at hlen
+    | cons s sels =>
+      simp only [List.zipWith_cons_cons]
+      refine List.Forall₂.cons ⟨rfl, ?_⟩ ?_
+      · have := hs 0 d (by simp)
+        simp only [List.getD_cons_zero] at this
+        exact row_restrict_get d s o x (hk d (List.mem_cons_self ..)) this.1 this.2
+      · apply ih sels (by simpa using hlen) (fun e he => hk e (List.mem_cons_of_mem _ he))
+        intro k e he
+        have := hs (k + 1) e (by simpa using he)
+        simpa using this
+
 end
 
 end GV.C09
